@@ -143,11 +143,23 @@ def discharge(obligations, timeout=10, jobs=None, want_models=True):
                 stages.append(("requested-lemmas", to_smt2(ob, with_axioms="req")))
         tasks.append((i, txt, timeout, uses_strings(txt), stages))
     results = [None] * len(obligations)
-    todo = [t for t in tasks if t is not None]
+    # paths that share a prefix re-generate the obligations of that prefix: identical queries are solved once
+    first, dups, todo = {}, {}, []
+    for t in tasks:
+        if t is None:
+            continue
+        key = hash(t[1])
+        if key in first and tasks[first[key]][1] == t[1]:
+            dups.setdefault(first[key], []).append(t[0])
+        else:
+            first.setdefault(key, t[0])
+            todo.append(t)
     for i, t in enumerate(tasks):
         if t is None:
             results[i] = dict(status="unsat", by="trivial", log=[], model=None)
     with ThreadPoolExecutor(max_workers=jobs) as ex:
         for idx, res, by, log, model in ex.map(discharge_one, todo):
             results[idx] = dict(status=res, by=by, log=log, model=model)
+            for j in dups.get(idx, []):
+                results[j] = dict(status=res, by=by, log=[(l[0] + "(same query)", l[1], 0) for l in log], model=model)
     return results
